@@ -56,6 +56,7 @@ def make_spec(st, idx, tier):
         spec["feed_stats"]["partial_rows"] = n
     C.add_unrequested_gaps(st, spec)
     C.feed_as_lists_polls(st, spec)
+    C.arrival_polls(st, spec)
     return spec
 
 
